@@ -181,7 +181,7 @@ def check_annotated(env, acc, max_photons):
 def check_heralds(env, acc, maxlen):
     for L in range(0, maxlen + 1):
         for st in itertools.product([0, 1, 2], repeat=L):
-            for k in range(0, 3 if L + 2 <= 5 else 2):
+            for k in range(0, 4 if L <= 2 else (3 if L + 2 <= 5 else 2)):
                 for pos in itertools.permutations(range(L + k), k):         # every key insertion order
                     h = {p: (i + 1) % 3 for i, p in enumerate(pos)}
                     acc.tick("executions"); acc.tick("transitions")
@@ -234,8 +234,11 @@ def check_random(env, acc):
         us = {}
         for sd in (0, 1, 2):
             acc.tick("executions", 4); acc.tick("transitions", 4)
-            u1, u2 = lw.random_unitary(N, seed=sd), lw.random_unitary(N, seed=sd)
-            p1, p2 = lw.random_permutation(N, seed=sd), lw.random_permutation(N, seed=sd)
+            u1 = lw.random_unitary(N, seed=sd); keep_u = u1.copy()
+            p1 = lw.random_permutation(N, seed=sd); keep_p = p1.copy()
+            u1[:] = 0; p1 *= 3                      # the caller owns what was returned: poison it
+            u2, p2 = lw.random_unitary(N, seed=sd), lw.random_permutation(N, seed=sd)
+            u1, p1 = keep_u, keep_p
             case = {"N": N, "random_seed": sd, "seed": env.seed}
             if not np.array_equal(u1, u2) or not np.array_equal(p1, p2):
                 acc.violation("seeded_generator_not_reproducible", case, None)
